@@ -386,26 +386,44 @@ func BuildCte(query *Query, expr *sqlparser.With) error {
 	if query.data == nil {
 		query.data = make(Map)
 	}
+	// what the names meant before this WITH: a CTE named like a table of the
+	// document (WITH orders AS (SELECT ... FROM orders WHERE ...)) reads that
+	// table, not itself
+	shadowed := make(Map)
+	for _, cte := range expr.CTEs {
+		if value, ok := query.data[cte.ID.String()]; ok {
+			shadowed[cte.ID.String()] = value
+		}
+	}
+	scope := query.data
 	for _, cte := range expr.CTEs {
 		copy := *cte
+		name := copy.ID.String()
 		evaluating := false
-		query.data[copy.ID.String()] = CteEvaluation(func() (any, error) {
+		scope[name] = CteEvaluation(func() (any, error) {
 			// a CTE that reads itself, directly or through another CTE,
 			// would recurse until the stack overflows
 			if evaluating {
-				return nil, EXPECTATION_FAILED.Extend(fmt.Sprintf("recursive reference to `%s`", copy.ID.String()))
+				return nil, EXPECTATION_FAILED.Extend(fmt.Sprintf("recursive reference to `%s`", name))
 			}
 			evaluating = true
 			defer func() { evaluating = false }()
-			query, err := Prepare(query.data, copy.Subquery, query.options)
+			data := scope
+			if original, ok := shadowed[name]; ok {
+				data = maps.Clone(scope)
+				data[name] = original
+			}
+			body, err := Prepare(data, copy.Subquery, query.options)
 			if err != nil {
 				return nil, err
 			}
-			rs, err := query.execAndPostProcess()
+			rs, err := body.execAndPostProcess()
 			if err != nil {
 				return nil, err
 			}
-			query.data[copy.ID.String()] = rs
+			// memoised in the scope that declares the CTE (a body with its
+			// own WITH works on a copy of it)
+			scope[name] = rs
 			return rs, nil
 		})
 	}
